@@ -1423,7 +1423,7 @@ def expr_survives(spec):
 # ==========================================================================================
 PROP = "C14"
 LEVEL = "proof"
-COQ_TARGETS = ["C14/Model.vo", "C14/Proofs.vo"]
+COQ_TARGETS = ["C14/Model.vo", "C14/Proofs.vo", "C14/Refuted.vo"]
 COQ_DIRS = ["C14"]
 PROPERTIES_FILE = "Properties/C14.v"
 ALLOWED_AXIOMS = set()
